@@ -204,7 +204,14 @@ func (f *File) Proto() string {
 			fmt.Fprintf(&b, "  option (sebuf.http.service_headers) = {required_headers: [%s]};\n", strings.Join(hs, ", "))
 		}
 		for _, m := range s.Methods {
-			fmt.Fprintf(&b, "  rpc %s(%s) returns (%s)", m.Name, rel(m.In, f.Package), rel(m.Out, f.Package))
+			in, out := rel(m.In, f.Package), rel(m.Out, f.Package)
+			if m.ClientStream {
+				in = "stream " + in
+			}
+			if m.ServerStream {
+				out = "stream " + out
+			}
+			fmt.Fprintf(&b, "  rpc %s(%s) returns (%s)", m.Name, in, out)
 			if m.HTTP == nil && len(m.Headers) == 0 {
 				b.WriteString(";\n")
 				continue
